@@ -14,12 +14,15 @@ import (
 	"errors"
 	"fmt"
 	"hash/fnv"
+	"net/http"
+	"net/http/httptest"
 	"os"
 	"os/exec"
 	"path/filepath"
 	"strconv"
 	"strings"
 	"sync"
+	"sync/atomic"
 	"syscall"
 	"time"
 
@@ -784,11 +787,65 @@ type joinIn struct {
 	Catalog []InstJ  `json:"catalog"`
 }
 
+// One fake Consul server and one HTTP client with keep-alive connections per harness process: the cases of
+// c01.join reuse a handful of connections instead of costing a listener and an ephemeral port each (200 000 cases
+// in the thorough tier, next to whatever else the machine runs).
+var (
+	joinOnce sync.Once
+	joinSrv  *httptest.Server
+	joinCur  atomic.Value // *registryState of the case being run
+	joinHC   *http.Client
+)
+
+func joinServer() (*httptest.Server, *http.Client) {
+	joinOnce.Do(func() {
+		joinSrv = httptest.NewServer(http.HandlerFunc(func(w http.ResponseWriter, req *http.Request) {
+			if reg, ok := joinCur.Load().(*registryState); ok && reg != nil {
+				reg.ServeHTTP(w, req)
+				return
+			}
+			http.Error(w, "no case", http.StatusServiceUnavailable)
+		}))
+		joinHC = &http.Client{Transport: &http.Transport{MaxIdleConns: 64, MaxIdleConnsPerHost: 32, IdleConnTimeout: 5 * time.Minute}}
+	})
+	return joinSrv, joinHC
+}
+
 func runJoin(raw json.RawMessage) (interface{}, error) {
 	var in joinIn
 	if err := json.Unmarshal(raw, &in); err != nil {
 		return nil, err
 	}
+	// the catalog lookups this case needs: makeConfig asks once per distinct non-empty service name of the passing
+	// checks. A lookup that does not reach the harness's own server (connect error, no ephemeral port, a reset
+	// under load) makes serviceConfig log the error and return nothing - correct behaviour of fabio for a failing
+	// Consul, and no observation of the join. Such a case is run again after a pause; if the server is still not
+	// reached it is reported as a harness error, never judged. (A Consul that *answers* an error is a scenario of
+	// c01.pipeline's fault classes, not of this stream.)
+	names := map[string]bool{}
+	for _, c := range in.Passing {
+		if c.Name != "" {
+			names[c.Name] = true
+		}
+	}
+	var lastServed int
+	for attempt, pause := 0, 50*time.Millisecond; attempt < 5; attempt, pause = attempt+1, pause*4 {
+		if attempt > 0 {
+			time.Sleep(pause)
+		}
+		out, served, err := runJoinOnce(in)
+		if err != nil {
+			return nil, err
+		}
+		if served >= len(names) {
+			return out, nil
+		}
+		lastServed = served
+	}
+	return nil, fmt.Errorf("environment: the fake Consul served %d of the %d catalog lookups this case needs (transport failure between the real client and the harness's server)", lastServed, len(names))
+}
+
+func runJoinOnce(in joinIn) (interface{}, int, error) {
 	reg := newRegistry(kvPath)
 	for _, c := range in.Catalog {
 		n := reg.node(c.Node)
@@ -797,24 +854,27 @@ func runJoin(raw json.RawMessage) (interface{}, error) {
 		}
 		reg.insts = append(reg.insts, &inst{Node: c.Node, ID: c.SID, Name: c.Name, SAddr: c.SAddr, Port: c.Port, Tags: c.Tags})
 	}
-	srv := reg.serve()
-	defer srv.Close()
+	srv, hc := joinServer()
+	joinCur.Store(reg)
 	defer reg.close()
 	cc := &config.Consul{Addr: strings.TrimPrefix(srv.URL, "http://"), Scheme: "http", TagPrefix: in.Cfg.Prefix, ServiceMonitors: in.Cfg.Monitors}
 	var passing []*api.HealthCheck
 	for _, c := range in.Passing {
 		passing = append(passing, &api.HealthCheck{Node: c.Node, CheckID: c.ID, ServiceID: c.SID, ServiceName: c.Name, Status: c.Status, ServiceTags: c.Tags})
 	}
-	text, err := consul.VerifMakeConfig(cc, "dc1", passing)
+	text, err := consul.VerifMakeConfigClient(cc, "dc1", passing, hc)
 	if err != nil {
-		return nil, err
+		return nil, 0, err
 	}
 	lines := []string{}
 	if text != "" {
 		lines = strings.Split(text, "\n")
 	}
 	snap := reg.snapshot()
-	return map[string]interface{}{"lines": lines, "catalog": snap.Catalog}, nil
+	reg.mu.Lock()
+	served := reg.catServed
+	reg.mu.Unlock()
+	return map[string]interface{}{"lines": lines, "catalog": snap.Catalog}, served, nil
 }
 
 func genJoin(r *hx.Rand, i int) interface{} {
